@@ -168,6 +168,62 @@ fn stress(threads: usize, ops: usize, seed: u64, nexpr: usize, ndocs: usize) -> 
     json!({"mode": "stress", "threads": threads, "searches": total, "mismatches": mismatches, "panics": panics, "interleaving": sig, "inputs_mutated": mutated})
 }
 
+/// All threads enter `search` on the SAME shared expression at the same instant (spin
+/// barrier), each with its own document, round after round: interference between
+/// simultaneous searches of one expression object shows up as a foreign or missing element.
+fn burst(threads: usize, rounds: usize, seed: u64) -> Value {
+    use std::sync::atomic::{AtomicUsize, Ordering};
+    let exprs: Arc<Vec<Expression<'static>>> = Arc::new(EXPRS.iter().map(|e| jmespath::compile(e).unwrap()).collect());
+    let docs: Vec<Value> = (0..threads)
+        .map(|t| {
+            let recs: Vec<Value> = (0..6 + t % 3).map(|i| json!({"id": 100 * t + i, "k": (i + t) % 3})).collect();
+            json!({"a": {"b": t, "c": null}, "xs": [t as i64, t as i64 + 7, -(t as i64), 3], "recs": recs})
+        })
+        .collect();
+    let inputs: Arc<Vec<Rcvar>> = Arc::new(docs.iter().map(|d| Rcvar::new(var_of(d))).collect());
+    let truth: Arc<Vec<Vec<String>>> = Arc::new(exprs.iter().map(|e| inputs.iter().map(|d| fp(&e.search(d))).collect()).collect());
+    let arrived = Arc::new(AtomicUsize::new(0));
+    let mut handles = vec![];
+    for t in 0..threads {
+        let (exprs, inputs, truth, arrived) = (exprs.clone(), inputs.clone(), truth.clone(), arrived.clone());
+        handles.push(thread::spawn(move || {
+            let mut mism: Vec<Value> = vec![];
+            let mut done = 0u64;
+            let r = catch_unwind(AssertUnwindSafe(|| {
+                for round in 0..rounds {
+                    let e = (round + seed as usize) % exprs.len();
+                    arrived.fetch_add(1, Ordering::SeqCst);
+                    while arrived.load(Ordering::SeqCst) < (round + 1) * threads {
+                        std::hint::spin_loop();
+                    }
+                    let g = fp(&exprs[e].search(&inputs[t]));
+                    done += 1;
+                    if g != truth[e][t] && mism.len() < 4 {
+                        mism.push(json!({"expression": EXPRS[e], "thread": t, "round": round, "sequential": truth[e][t], "concurrent": g, "mode": "burst"}));
+                    }
+                }
+            }));
+            (mism, done, r.is_err())
+        }));
+    }
+    let mut mismatches = vec![];
+    let mut total = 0;
+    let mut panics = 0;
+    for h in handles {
+        match h.join() {
+            Ok((m, d, p)) => {
+                mismatches.extend(m);
+                total += d;
+                if p {
+                    panics += 1;
+                }
+            }
+            Err(_) => panics += 1,
+        }
+    }
+    json!({"mode": "stress", "threads": threads, "searches": total, "mismatches": mismatches, "panics": panics, "interleaving": format!("burst{}x{}", threads, rounds), "inputs_mutated": []})
+}
+
 const PROBES: [&str; 26] = [
     "abs(`-1`)", "avg(`[1, 2, 3]`)", "ceil(`1.5`)", "contains('abc', 'b')", "ends_with('abc', 'c')", "floor(`1.5`)", "join('-', `[\"a\", \"b\"]`)",
     "keys(`{\"a\": 1}`)", "length('abc')", "map(&@, `[1]`)", "max(`[1, 3, 2]`)", "max_by(`[{\"k\": 1}, {\"k\": 2}]`, &k)", "merge(`{\"a\": 1}`, `{\"b\": 2}`)",
@@ -234,6 +290,7 @@ fn main() {
     let out = match a.get(0).map(|s| s.as_str()) {
         Some("stress") => stress(num(1, 4) as usize, num(2, 1000) as usize, num(3, 1), 24, 6),
         Some("first") => first(num(1, 4) as usize, num(2, 0), 26),
+        Some("burst") => burst(num(1, 4) as usize, num(2, 2000) as usize, num(3, 1)),
         Some("small") => {
             // reduced sizes: this mode runs under Miri / ThreadSanitizer
             let f = first(4, 0, num(2, 6) as usize);
